@@ -586,6 +586,8 @@ def check(tier: str) -> Report:
         cres = pool.map(_const_row, jobs, chunksize=4)
         eres = pool.map(_expr_row, ejobs, chunksize=4)
         ures = pool.map(_user_row, ujobs, chunksize=4)
+        ljobs = [(n_axes, axis, upper, inf) for n_axes, axis in ((2, 0), (2, 1)) for upper in (False, True) for inf in (False, True)]
+        lres = pool.map(_linked_mixed_row, ljobs, chunksize=1)
 
     fam_of_class: dict[str, set] = {}
     for res in cres:
@@ -604,6 +606,10 @@ def check(tier: str) -> Report:
         route, n_axes, axis, upper, key = res["job"]
         tag = f"UserBC:{route}:axes={n_axes}:axis={axis}:{'upper' if upper else 'lower'}:args={key}"
         _absorb(rep, res, tag, "UserBC", route)
+    for res in lres:
+        n_axes, axis, upper, inf = res["job"]
+        tag = f"MixedBC:numba:linked-value:axes={n_axes}:axis={axis}:{'upper' if upper else 'lower'}:{'infinite' if inf else 'finite'}-coefficient"
+        _absorb(rep, res, tag, "MixedBC", "numba")
     # ---------------------------------------------------------------- alias -> proved family
     for alias, want in ALIAS_FAMILY.items():
         cname = registry.get(alias)
@@ -625,7 +631,7 @@ def check(tier: str) -> Report:
     rep.assumptions += [
         "every axis has at least two cells (the code raises otherwise)",
         "values of user expressions/callables are uninterpreted symbols (their meaning is property C11)",
-        "MixedBC with a linked value array (value_is_linked) in the compiled route is not extracted (loop over value.flat)",
+        "compiled MixedBC with a linked value array is extracted for 2-axes grids (1-d boundary: flat index == boundary index)",
         "numba compiles the interpreted Python semantics faithfully",
     ]
     return rep
@@ -895,3 +901,133 @@ def ClassRefFor(ix, rel, name):
     from ..fx import ClassRef
 
     return ClassRef(ix.cls(rel, name))
+
+
+# =============================================================================
+# compiled MixedBC with a linked value array (loops over value.flat)
+# =============================================================================
+def _linked_mixed_row(job):
+    n_axes, axis, upper, inf_branch = job
+    ix = get_index()
+    cfg = read_config_defaults(ix)
+    grid = grid_for(ix, n_axes)
+    S = sp.Symbol("n_boundary", integer=True, positive=True)
+    GAM = sp.Function("gamma_linked")
+    it_box = {}
+    linked = Model(
+        "linked-value",
+        {
+            "size": S,
+            "flat": Model("flat", {"__getitem__": lambda key: GAM(sp.sympify(key[0]))}),
+            "__isinstance__": lambda c: True,
+        },
+    )
+
+    def empty_like(v, **k):
+        rec = {}
+
+        def setflat(key, val, aug, st):
+            rec["i"], rec["val"] = sp.sympify(key[0]), it_box["it"].as_expr(val)
+
+        def getitem(key):
+            kk = [sp.sympify(x) for x in key if x is not Ellipsis and x is not None]
+            if "val" not in rec or len(kk) != 1:
+                raise Unsupported(f"linked MixedBC: unexpected index {key} into the coefficient array")
+            return AT(rec["val"].subs(rec["i"], kk[0]), kk[0])
+
+        return Model("coefficients", {"flat": Model("flat", {"__setitem__": setflat}), "__getitem__": getitem})
+
+    bc = bc_model(ix, "MixedBC", grid, axis, upper, 0, value=linked, const=BETA)
+    bc._attrs.update({"homogeneous": False, "value_is_linked": True, "normal": False})
+    be = backend_model()
+    ov = std_overrides(ix, cfg, be)
+    ov["_make_value_getter"] = lambda b: (lambda: linked)
+    it = Interp(ix, overrides=ov)
+    it_box["it"] = it
+    it.np["empty_like"] = empty_like
+    it.np["array"] = lambda x, *a, **k: x
+    it.np["asarray"] = lambda x, *a, **k: Opaque("unused-eager-array")
+    asked = []
+
+    def decide_(cond, node):
+        txt = str(cond)
+        if "isinf" in txt:
+            asked.append(txt)
+            return inf_branch
+        return decide(cond, node)
+
+    it.decide = decide_
+    # the eager (non-linked) arrays computed in the prelude are not used on this path
+    orig_binop = it.binop
+
+    def binop(op, a, b, node=None):
+        if (isinstance(a, Model) and a is linked) or (isinstance(b, Model) and b is linked) or isinstance(a, Opaque) or isinstance(b, Opaque):
+            return Opaque("unused-eager-array")
+        return orig_binop(op, a, b, node)
+
+    it.binop = binop
+    orig_assign = it.assign
+
+    def assign(t, v, env, st):
+        if isinstance(t, ast.Subscript):
+            try:
+                base = it.eval(t.value, env)
+            except Unsupported:
+                base = None
+            if isinstance(base, Opaque):
+                return
+        return orig_assign(t, v, env, st)
+
+    it.assign = assign
+    orig_unary = it.eval_UnaryOp
+
+    def unary(node, env):
+        try:
+            return orig_unary(node, env)
+        except Unsupported:
+            return Opaque("unused")
+
+    it.eval_UnaryOp = unary
+    it.np["isfinite"] = lambda x: Opaque("unused")
+    f = ix.func(NB, "NumbaBackend._make_local_ghost_cell_setter")
+    try:
+        setter = it.call(it.make_closure(f, it.module_env(f.module)), (be, bc), {})
+        df = SymArray("data_full", shape=tuple(n + 2 for n in grid._attrs["shape"]))
+        n0 = len(it.stores)
+        it.call(setter, (df,), {"args": None})
+    except RaisedInCode as e:
+        return {"job": job, "raised": e.exc_name}
+    except Unsupported as e:
+        return {"job": job, "error": str(e)}
+    stores = [s for s in it.stores[n0:] if s.base == "data_full"]
+    out = {"job": job, "problems": [], "residuals": [], "n_stores": len(stores)}
+    if len(stores) != 1:
+        out["problems"].append(f"{len(stores)} stores, expected one")
+        return out
+    if not asked:
+        out["problems"].append("the linked-value path (np.isinf test per entry) was not taken")
+    st = stores[0]
+    out["func"] = st.func
+    # which boundary entry of the linked array is used: must be the transverse position written
+    value = sp.sympify(st.value)
+    gam_args = {a.args[0] for a in value.atoms(AppliedUndef) if a.func == GAM}
+    problems, g = analyse_store(st, grid, axis, upper, 0, False, n_axes)
+    out["problems"] += problems
+    out["store"] = f"data_full{list(st.idx)} = {st.value}"
+    if g is None:
+        return out
+    h = grid._attrs["discretization"].items[axis]
+    c = sp.Symbol("cN" if upper else "c1")
+    gam = None
+    for a in sp.sympify(g).atoms(AppliedUndef):
+        if a.func == GAM:
+            gam = a
+    if inf_branch:
+        res = g + c
+    else:
+        if gam is None:
+            out["problems"].append("the ghost value does not depend on the linked coefficient")
+            return out
+        res = (g - c) / h + gam * (g + c) / 2 - BETA
+    out["residuals"].append(("defining-equation(linked," + ("infinite" if inf_branch else "finite") + ")", str(sp.simplify(res))))
+    return out
